@@ -1,6 +1,7 @@
 package tlog
 
 import (
+	"bytes"
 	"io"
 
 	"github.com/bluenviron/gomavlib/v3/pkg/dialect"
@@ -21,13 +22,14 @@ type Writer struct {
 	// private
 	//
 
+	frameBuf    bytes.Buffer
 	frameWriter *frame.Writer
 }
 
 // Initialize initializes Writer.
 func (w *Writer) Initialize() error {
 	w.frameWriter = &frame.Writer{
-		ByteWriter: w.ByteWriter,
+		ByteWriter: &w.frameBuf,
 		DialectRW:  w.DialectRW,
 	}
 	err := w.frameWriter.Initialize()
@@ -40,6 +42,14 @@ func (w *Writer) Initialize() error {
 
 // Write writes a telemetry log entry.
 func (w *Writer) Write(entry *Entry) error {
+	// encode the frame first, so that an entry that cannot be encoded
+	// leaves nothing in the log.
+	w.frameBuf.Reset()
+	err := w.frameWriter.Write(entry.Frame)
+	if err != nil {
+		return err
+	}
+
 	epoch := entry.Time.UnixMicro()
 	buf := []byte{
 		byte(epoch >> 56),
@@ -51,12 +61,12 @@ func (w *Writer) Write(entry *Entry) error {
 		byte(epoch >> 8),
 		byte(epoch),
 	}
-	_, err := w.ByteWriter.Write(buf)
+	_, err = w.ByteWriter.Write(buf)
 	if err != nil {
 		return err
 	}
 
-	err = w.frameWriter.Write(entry.Frame)
+	_, err = w.ByteWriter.Write(w.frameBuf.Bytes())
 	if err != nil {
 		return err
 	}
